@@ -160,13 +160,28 @@ def run_path(t, n):
     return res
 
 
+def desurrogate(x):
+    """JSON transport joins a lone high+low surrogate pair into one astral character, which would make
+    a key mis-decoded as two lone surrogates ("\\ud83d\\udd11" read as a Python literal) look
+    correct on the harness side: make every surrogate code point visible instead."""
+    if isinstance(x, str):
+        if any(0xD800 <= ord(c) <= 0xDFFF for c in x):
+            return ''.join('<surrogate %04x>' % ord(c) if 0xD800 <= ord(c) <= 0xDFFF else c for c in x)
+        return x
+    if isinstance(x, list):
+        return [desurrogate(v) for v in x]
+    if isinstance(x, dict):
+        return {desurrogate(k): desurrogate(v) for k, v in x.items()}
+    return x
+
+
 def handler(p):
     out = {'split': h_split(p.get('split', [])), 'alias': [], 'path': []}
     for n, t in enumerate(p.get('alias', [])):
         out['alias'].append(run_alias(t, n))
     for n, t in enumerate(p.get('path', [])):
         out['path'].append(run_path(t, n))
-    return out
+    return desurrogate(out)
 
 
 if __name__ == '__main__':
